@@ -2,7 +2,10 @@ INIT Init
 NEXT Next
 CONSTANTS
   MaxLen = 3
-  WithLonger = TRUE
+  CoreLen = 3
+  TightLen = 4
+  QLen = 4
+  SLen = 4
   AlphaCap = 4
   LenCap = 3
   Budget = 100
